@@ -37,8 +37,14 @@ func (r *abort2) StoreBroadcastMessage(msg round.Message) error {
 		return round.ErrInvalidContent
 	}
 
+	if body.YHat == nil || body.KProof == nil || body.KProof.Plaintext == nil {
+		return round.ErrNilFields
+	}
 	alphas := make(map[party.ID]curve.Scalar, len(body.ChiProofs))
 	for id, chiProof := range body.ChiProofs {
+		if chiProof == nil || chiProof.Plaintext == nil {
+			return round.ErrNilFields
+		}
 		alphas[id] = r.Group().NewScalar().SetNat(chiProof.Plaintext.Mod(r.Group().Order()))
 	}
 	r.ChiAlphas[from] = alphas
